@@ -44,6 +44,7 @@ pub fn run_case(toks: &[&str], em: &mut Emitter) {
             let res: Result<(), ()> = match c {
                 'R' => { s.pipe.push_in(&refsrv::mcs_sdin(1003, &unhex(&op[1..]))); s.client.read(|e| if let RdpEvent::Bitmap(b) = e { evs.push(show_ev(&b)) }).map_err(|_| ()) }
                 'F' => { let f: Vec<&str> = op[1..].split(':').collect(); s.pipe.push_in(&refsrv::fast_path_frame(f[0].parse().unwrap(), &unhex(f[1]))); s.client.read(|e| if let RdpEvent::Bitmap(b) = e { evs.push(show_ev(&b)) }).map_err(|_| ()) }
+                'M' => { s.pipe.push_in(&refsrv::x224_data(&unhex(&op[1..]))); s.client.read(|e| if let RdpEvent::Bitmap(b) = e { evs.push(show_ev(&b)) }).map_err(|_| ()) }
                 'T' => s.client.try_write(parse_event(&op[1..]).unwrap()).map_err(|_| ()),
                 _ => s.client.write(parse_event(op).unwrap()).map_err(|_| ()),
             };
@@ -233,4 +234,77 @@ pub fn generate_c10(thorough: bool, seed: u64, _part: (usize, usize), em: &mut E
         }
         emit(em, 1004, 800, 600, 0x409, "rdp-rs", &ops, Some(&hist0));
     }
+}
+
+/// C06: hostile slow-path / fast-path / MCS-level bytes in every client state
+pub fn generate_c06(thorough: bool, seed: u64, part: (usize, usize), em: &mut Emitter) {
+    let mut r = Rng::new(seed ^ 0xC06);
+    em.alloc_limit = 1 << 20;
+    let prefixes: [&[u64]; 6] = [&[], &[0], &[0, 1], &[0, 1, 2], &[0, 1, 2, 3], &[0, 1, 2, 3, 5]];
+    let mut idx = 0usize;
+    let mut run = |em: &mut Emitter, r: &mut Rng, pre: &[u64], hostile: Vec<String>| {
+        let mut g = Gen { r, share: 0x000103ea };
+        let mut ops = vec![];
+        for l in pre { ops.push(g.letter(*l).0); }
+        ops.extend(hostile);
+        // continuation: lets a diverging state show up
+        for l in &[1u64, 2, 3, 5, 9] { ops.push(g.letter(*l).0); }
+        ops.push(g.input());
+        emit(em, 1004, 800, 600, 0x409, "rdp-rs", &ops, None);
+    };
+    // a. field faults on every valid letter, at every byte offset, in every state
+    let fault_vals: &[u8] = if thorough { &[0, 1, 2, 3, 4, 5, 6, 7, 17, 18, 19, 0x7f, 0x80, 0xfe, 0xff] } else { &[0, 3, 5, 17, 0x80, 0xff] };
+    for which in 0..11u64 {
+        let base = { let mut g = Gen { r: &mut r, share: 0x000103ea }; g.letter(which).0 };
+        let (tag, hexs) = if base.starts_with('R') { ("R".to_string(), base[1..].to_string()) } else { let i = base.find(':').unwrap(); (base[..=i].to_string(), base[i + 1..].to_string()) };
+        let bytes = unhex(&hexs);
+        for off in 0..bytes.len().min(if thorough { 400 } else { 60 }) {
+            for v in fault_vals {
+                idx += 1; if idx % part.1 != part.0 { continue; }
+                let mut b = bytes.clone(); b[off] = *v;
+                let pre = prefixes[(idx / 7) % 6];
+                run(em, &mut r, pre, vec![format!("{}{}", tag, hex(&b))]);
+            }
+        }
+        for cut in 0..bytes.len().min(80) {
+            idx += 1; if idx % part.1 != part.0 { continue; }
+            run(em, &mut r, prefixes[idx % 6], vec![format!("{}{}", tag, hex(&bytes[..cut]))]);
+        }
+        for _ in 0..6 {
+            idx += 1; if idx % part.1 != part.0 { continue; }
+            let mut b = bytes.clone(); let k = r.range(1, 6) as usize; b.extend(r.bytes(k));
+            run(em, &mut r, prefixes[idx % 6], vec![format!("{}{}", tag, hex(&b))]);
+        }
+    }
+    // b. all short strings at each entry (raw, fast-path, MCS level)
+    let mut shorts: Vec<Vec<u8>> = vec![vec![]];
+    for a in 0..=255u8 { shorts.push(vec![a]); }
+    for a in (0..=255u8).step_by(if thorough { 1 } else { 9 }) { for b in (0..=255u8).step_by(if thorough { 3 } else { 31 }) { shorts.push(vec![a, b]); } }
+    for s in &shorts {
+        idx += 1; if idx % part.1 != part.0 { continue; }
+        let pre = prefixes[idx % 6];
+        run(em, &mut r, pre, vec![format!("R{}", hex(s)), format!("F0:{}", hex(s)), format!("M{}", hex(s))]);
+    }
+    // c. length-field attacks at MCS level and random bytes
+    let n = if thorough { 30000 } else { 2500 };
+    for _ in 0..n {
+        let pre = prefixes[r.below(6) as usize];
+        let k = r.below(40) as usize;
+        let mut b = r.bytes(k);
+        let op = match r.below(5) {
+            0 => format!("R{}", hex(&b)),
+            1 => format!("F{}:{}", r.below(4), hex(&b)),
+            2 => { if b.len() >= 2 { b[0] = *r.pick(&[0x68u8, 0x21, 0x2e, 0x3e, 0x64, 0xff]); } format!("M{}", hex(&b)) }
+            3 => { // well-formed MCS header with hostile initiator / channel / length, then random payload
+                let ini = *r.pick(&[0u16, 1, 0xfc16, 0xfc17, 0xffff]); let ch = *r.pick(&[1003u16, 1004, 0, 0xffff, 1002]);
+                let mut m = vec![0x68]; m.extend(refsrv::be16(ini)); m.extend(refsrv::be16(ch)); m.push(0x70); m.extend(refsrv::perlen(b.len())); m.extend(&b);
+                format!("M{}", hex(&m)) }
+            _ => { // a share control header with a hostile totalLength around its own size
+                let tl = *r.pick(&[0u16, 1, 5, 6, 7, 17, 18, 0xffff]); let ty = *r.pick(&[0x11u16, 0x13, 0x16, 0x17, 0x1a, 0]);
+                let mut m = refsrv::le16(tl); m.extend(refsrv::le16(ty)); m.extend(refsrv::le16(0x3ea)); m.extend(&b);
+                format!("R{}", hex(&m)) }
+        };
+        run(em, &mut r, pre, vec![op]);
+    }
+    em.alloc_limit = 0;
 }
